@@ -86,8 +86,8 @@ func solveQuery(cfg *SolverCfg, q *Query, file string, stats *solverStats) {
 	}
 	ctx := context.Background()
 	quick := sec
-	if quick > 3 {
-		quick = 3
+	if quick > 6 {
+		quick = 6
 	}
 	if q.Cover && quick > 2 {
 		quick = 2
